@@ -145,6 +145,19 @@ pub fn run(toks: &[&str], out: &mut String) {
                             it = it.clone();
                             continue;
                         }
+                        if op == "l" || op == "n" {
+                            // provided methods of Iterator, on a clone (they consume it): the last of the items still to
+                            // come, and their number
+                            if op == "l" {
+                                match it.clone().last() {
+                                    Some(x) => out.push_str(&format!(" T{}", int(*x))),
+                                    None => out.push_str(" TN"),
+                                }
+                            } else {
+                                out.push_str(&format!(" C{}", it.clone().count()));
+                            }
+                            continue;
+                        }
                         let r = if op == "x" { it.next() } else { it.nth(op.parse().unwrap()) };
                         match r {
                             Some(x) => out.push_str(&format!(" S{}", int(*x))),
